@@ -154,7 +154,8 @@ def classify(group, res):
                 if info["kind"] == "clause":
                     hit_clauses.append(info["id"])
                 elif info["kind"] in ("src", "hint"):
-                    hit_src.append(dict(info, gen_line=ln, gen_text=(group.out.lines[ln - 1].strip() if ln - 1 < len(group.out.lines) else "")))
+                    le = max(ln, min(s.get("line_end", ln), ln + 12))
+                    hit_src.append(dict(info, gen_line=ln, gen_text=" ".join(x.strip() for x in group.out.lines[ln - 1:le])))
                 else:
                     hit_tmpl.append(info)
         fails.append({"msg": msg, "rlimit": rl, "clauses": hit_clauses, "src": hit_src, "tmpl": hit_tmpl,
@@ -610,7 +611,7 @@ def report(pid, pc, tier, seed, results, extra_results, wall):
         at_line, at_text = None, ""
         for sx in (f.get("src") or []):
             at_line = sx.get("gen_line")
-            at_text = re.sub(r"/\*VX[A-Z]+ [^*]*\*/", "", sx.get("gen_text", "")).strip()[:160]
+            at_text = re.sub(r"/\*VX[A-Z]+ [^*]*\*/", "", sx.get("gen_text", "")).strip()[:240]
             break
         if (fn, at_line) in seen_body:
             continue
